@@ -23,6 +23,7 @@ type Sem struct {
 	nilBusy                                                        map[*ssa.Function]bool
 	trueCache                                                      map[string][]Atom
 	unresolved                                                     []string
+	anch                                                           *Anchors
 }
 
 // Atom is a guard fact. Param>=0 means Val must be substituted from the caller's argument.
@@ -373,6 +374,9 @@ func (s *Sem) nilFacts(fn *ssa.Function, depth int) []Atom {
 // nilSets: one fact set per way value ev (an error) may be nil when control is in block b.
 func (s *Sem) nilSets(ev ssa.Value, b *ssa.BasicBlock, depth int) [][]Atom {
 	var sets [][]Atom
+	if knownNonNil(ev, b) {
+		return nil // `if err != nil { return err }`: cannot be nil here
+	}
 	switch x := ev.(type) {
 	case *ssa.Phi:
 		for i, e := range x.Edges {
@@ -493,4 +497,22 @@ func (s *Sem) recvKind(fn *ssa.Function) string {
 		return "channel"
 	}
 	return n.Obj().Name()
+}
+
+// knownNonNil: block b is only reached through an edge on which v != nil.
+func knownNonNil(v ssa.Value, b *ssa.BasicBlock) bool {
+	if b == nil {
+		return false
+	}
+	return guardedBy(b, func(ifi *ssa.If, br bool) bool {
+		c := condOn(ifi, br)
+		if c.Op != token.NEQ {
+			return false
+		}
+		x, y := c.X, c.Y
+		if isNilConst(x) {
+			x, y = y, x
+		}
+		return isNilConst(y) && x == v
+	})
 }
